@@ -146,6 +146,86 @@ theorem reject_md (inp : Input) (D : Grid) (n m : Nat)
 
 /-! ### the predicate holds of the model -/
 
+/-- the table `built` shows, through its IDs, exactly the grid and IDs it was given -/
+theorem tableIs_built (inp : Input) (D : Grid) (n m : Nat) (hD : gridIs D n m = true)
+    (hlo : inp.obs.length = n) (hls : inp.samp.length = m) (hno : inp.obs.Nodup) (hns : inp.samp.Nodup)
+    (hmo : mdBad inp.omd inp.obs = false) (hms : mdBad inp.smd inp.samp = false) :
+    tableIs (built inp D) inp.obs inp.samp D = true := by
+  have hl := (gridIs_iff D n m).mp hD
+  simp only [tableIs, built, Bool.and_eq_true, beq_iff_eq, true_and]
+  refine ⟨?_, ?_⟩
+  · simp only [Table.wfb, Bool.and_eq_true, beq_iff_eq, List.all_eq_true]
+    refine ⟨⟨⟨by rw [hl.1, hlo], fun r hr => by rw [hl.2 r hr, hls]⟩, ?_⟩, ?_⟩
+    · cases h : mdOut inp.omd with
+      | none => rfl
+      | some l => simp [mdOut_length _ _ hmo l h]
+    · cases h : mdOut inp.smd with
+      | none => rfl
+      | some l => simp [mdOut_length _ _ hms l h]
+  · rw [allCells_iff]
+    intro i j hi hj
+    rw [beq_iff_eq]
+    exact cell_of_grid _ D n m hD rfl hno hns hlo hls i j (by omega) (by omega)
+
+/-- … and the metadata it was given -/
+theorem mdIs_built (inp : Input) (D : Grid) (hno : inp.obs.Nodup) (hns : inp.samp.Nodup) :
+    mdIs (built inp D) inp = true := by
+  simp only [mdIs, built, Bool.and_eq_true, List.all_eq_true, List.mem_range, beq_iff_eq]
+  exact ⟨fun i hi => mdOf_spec inp.obs inp.omd hno i hi, fun j hj => mdOf_spec inp.samp inp.smd hns j hj⟩
+
+/-- **independent_model.** What the constructor returns is a value of its own: whatever happens later
+(to the object it was built from, to the ID and metadata arguments, to other tables built from the
+same object), every later look at it shows the described grid and IDs, by position and by ID. -/
+theorem independent_model (inp : Input) (D : Grid) (n m : Nat)
+    (henc : encodes inp.data inp.inputIsDense D n m = true)
+    (hlo : inp.obs.length = n) (hls : inp.samp.length = m) (hno : inp.obs.Nodup) (hns : inp.samp.Nodup)
+    (hmo : mdBad inp.omd inp.obs = false) (hms : mdBad inp.smd inp.samp = false)
+    (whats : List String) (kept : List Bool) (hk : kept.all id = true) :
+    construct inp = .ok (built inp D) ∧
+    holdsIndependent inp D (whats.map (fun w => ⟨w, built inp D, some D⟩)) kept = none := by
+  refine ⟨forms_agree inp D n m henc hlo hls hno hns hmo hms, ?_⟩
+  obtain ⟨hD, _, _⟩ := encodes_dims _ _ _ _ _ henc
+  have hok : ∀ w, stageOk inp D ⟨w, built inp D, some D⟩ = true := by
+    intro w
+    simp only [stageOk, tableIs_built inp D n m hD hlo hls hno hns hmo hms, mdIs_built inp D hno hns,
+      Bool.true_and, hlo, hls, hD]
+    rw [allCells_iff]; intro i j _ _; simp
+  have hfind : (whats.map (fun w => (⟨w, built inp D, some D⟩ : Stage))).find?
+      (fun st => !stageOk inp D st) = none := by
+    rw [List.find?_eq_none]
+    intro st hst
+    rw [List.mem_map] at hst
+    obtain ⟨w, _, rfl⟩ := hst
+    simp [hok w]
+  simp only [holdsIndependent, hfind, hk, chk, if_true]
+
+/-- **profile_empty_irrelevant.** For a non-empty table, a profile that differs from the default one
+only in the reaction to `empty` (errstate(empty='raise'/'warn'/'print'/'call')) changes nothing. -/
+theorem profile_empty_irrelevant (prof : String → String) (inp : Input)
+    (hp : ∀ k, k ≠ "empty" → prof k = defaultProfile k) (ho : inp.obs ≠ []) (hs : inp.samp ≠ []) :
+    constructWith prof inp = construct inp := by
+  have herr : ∀ (M : Mat) (omd smd : Option (List MdEntry)),
+      errcheck prof M inp.obs inp.samp omd smd = errcheck defaultProfile M inp.obs inp.samp omd smd := by
+    intro M omd smd
+    simp only [errcheck]
+    cases hf : kindsSorted.find? (fires M inp.obs inp.samp omd smd) with
+    | none => rfl
+    | some k =>
+      have hfire : fires M inp.obs inp.samp omd smd k = true := List.find?_some hf
+      have hne : k ≠ "empty" := by
+        intro e
+        rw [e] at hfire
+        cases hobs : inp.obs with
+        | nil => exact ho hobs
+        | cons _ _ => cases hsamp : inp.samp with
+          | nil => exact hs hsamp
+          | cons _ _ => simp [fires, hobs, hsamp] at hfire
+      simp only [hp k hne]
+  simp only [construct, constructWith]
+  cases toSparse inp.data inp.inputIsDense (inp.obs.length, inp.samp.length) with
+  | error e => rfl
+  | ok M => simp only [bind, Except.bind, finish, herr]
+
 /-- **model_holds.** The constructor part of the property is true of the model on every input whose
 data is an accepted encoding of a grid: rejection with the table error in each malformed case,
 the grid, IDs and metadata looked up through the IDs otherwise. -/
@@ -196,27 +276,9 @@ theorem model_holds (c : Case)
   have hmd' : mdBad c.inp.omd c.inp.obs = false ∧ mdBad c.inp.smd c.inp.samp = false := by simpa using hmd
   obtain ⟨hD, _, _⟩ := encodes_dims _ _ _ _ _ henc
   rw [forms_agree c.inp c.grid c.n c.m henc hlen.1 hlen.2 hd.1 hd.2 hmd'.1 hmd'.2]
-  have hl := (gridIs_iff c.grid c.n c.m).mp hD
-  have htab : tableIs (built c.inp c.grid) c.inp.obs c.inp.samp c.grid = true := by
-    simp only [tableIs, built, Bool.and_eq_true, beq_iff_eq, true_and]
-    refine ⟨?_, ?_⟩
-    · simp only [Table.wfb, Bool.and_eq_true, beq_iff_eq, List.all_eq_true]
-      refine ⟨⟨⟨by rw [hl.1, hlen.1], fun r hr => by rw [hl.2 r hr, hlen.2]⟩, ?_⟩, ?_⟩
-      · cases h : mdOut c.inp.omd with
-        | none => rfl
-        | some l => simp [mdOut_length _ _ hmd'.1 l h]
-      · cases h : mdOut c.inp.smd with
-        | none => rfl
-        | some l => simp [mdOut_length _ _ hmd'.2 l h]
-    · rw [allCells_iff]
-      intro i j hi hj
-      rw [beq_iff_eq]
-      exact cell_of_grid _ c.grid c.n c.m hD rfl hd.1 hd.2 hlen.1 hlen.2 i j (by omega) (by omega)
-  have hmdis : mdIs (built c.inp c.grid) c.inp = true := by
-    simp only [mdIs, built, Bool.and_eq_true, List.all_eq_true, List.mem_range, beq_iff_eq]
-    refine ⟨fun i hi => ?_, fun j hj => ?_⟩
-    · exact mdOf_spec c.inp.obs c.inp.omd hd.1 i hi
-    · exact mdOf_spec c.inp.samp c.inp.smd hd.2 j hj
+  have htab : tableIs (built c.inp c.grid) c.inp.obs c.inp.samp c.grid = true :=
+    tableIs_built c.inp c.grid c.n c.m hD hlen.1 hlen.2 hd.1 hd.2 hmd'.1 hmd'.2
+  have hmdis : mdIs (built c.inp c.grid) c.inp = true := mdIs_built c.inp c.grid hd.1 hd.2
   simp [htab, hmdis, allV, chk, Verdict.and]
 
 /-! ### adjacency lists -/
